@@ -226,14 +226,21 @@ Section Sem.
   Hypothesis D_cst : forall lg i n, D lg i (cst n) = 0.
   Hypothesis D_crd : forall lg i j, D lg i (crd lg j) = if Nat.eqb i j then 1 else 0.
   Hypothesis D_comm : forall lg i j a, D lg i (D lg j a) = D lg j (D lg i a).
-  Hypothesis D_sin : forall lg i a, D lg i (E Fsin a) = E Fcos a * D lg i a.
-  Hypothesis D_cos : forall lg i a, D lg i (E Fcos a) = - (E Fsin a * D lg i a).
-  Hypothesis D_tan : forall lg i a, D lg i (E Ftan a) = (1 + E Ftan a * E Ftan a) * D lg i a.
-  Hypothesis D_exp : forall lg i a, D lg i (E Fexp a) = E Fexp a * D lg i a.
-  Hypothesis D_log : forall lg i a, a <> 0 -> D lg i (E Flog a) = D lg i a / a.
-  Hypothesis D_sqrt : forall lg i a, phi 2 * E Fsqrt a <> 0 -> D lg i (E Fsqrt a) = D lg i a / (phi 2 * E Fsqrt a).
-  Hypothesis D_pow : forall lg i b e, b <> 0 ->
+  (* [Edom f a]: the composition f o a exists in the field (e.g. a has no pole);
+     [Pdom b e]: the general power b^e exists.  Elementary functions are partial. *)
+  Variable Edom : fname -> F -> Prop.
+  Variable Pdom : F -> F -> Prop.
+  Hypothesis D_sin : forall lg i a, Edom Fsin a -> D lg i (E Fsin a) = E Fcos a * D lg i a.
+  Hypothesis D_cos : forall lg i a, Edom Fcos a -> D lg i (E Fcos a) = - (E Fsin a * D lg i a).
+  Hypothesis D_tan : forall lg i a, Edom Ftan a -> D lg i (E Ftan a) = (1 + E Ftan a * E Ftan a) * D lg i a.
+  Hypothesis D_exp : forall lg i a, Edom Fexp a -> D lg i (E Fexp a) = E Fexp a * D lg i a.
+  Hypothesis D_log : forall lg i a, Edom Flog a -> a <> 0 -> D lg i (E Flog a) = D lg i a / a.
+  Hypothesis D_sqrt : forall lg i a, Edom Fsqrt a -> phi 2 * E Fsqrt a <> 0 -> D lg i (E Fsqrt a) = D lg i a / (phi 2 * E Fsqrt a).
+  Hypothesis D_pow : forall lg i b e, Pdom b e -> b <> 0 ->
     D lg i (P b e) = P b e * (D lg i e * E Flog b + e * D lg i b / b).
+  (* domains are closed under what the derivative formulas mention *)
+  Hypothesis Edom_sin_cos : forall a, Edom Fsin a <-> Edom Fcos a.
+  Hypothesis Pdom_log : forall b e, Pdom b e -> Edom Flog b.
 
   Lemma D_zero lg i : D lg i 0 = 0.
   Proof. change 0 with (phi 0%Z). apply D_phi. Qed.
@@ -302,12 +309,13 @@ Section Sem.
     | TDiv a b => defined a /\ defined b /\ teval b <> 0
     | TOpp a | TPowN a _ => defined a
     | TInv a => defined a /\ teval a <> 0
-    | TFn f a => defined a /\ match f with
-                              | Flog => teval a <> 0
-                              | Fsqrt => phi 2 * E Fsqrt (teval a) <> 0
-                              | _ => True
-                              end
-    | TPowG b e => defined b /\ defined e /\ teval b <> 0
+    | TFn f a => defined a /\ Edom f (teval a) /\
+                 match f with
+                 | Flog => teval a <> 0
+                 | Fsqrt => phi 2 * E Fsqrt (teval a) <> 0
+                 | _ => True
+                 end
+    | TPowG b e => defined b /\ defined e /\ Pdom (teval b) (teval e) /\ teval b <> 0
     end.
 
   Lemma iterN_D_comm lg j k n y : D lg j (iterN n (D lg k) y) = iterN n (D lg k) (D lg j y).
@@ -378,7 +386,7 @@ Section Sem.
       + inversion H. simpl. change (fpw (teval t) 0%N) with 1. change 1 with (phi 1%Z). now rewrite D_phi.
       + destruct (tD lg i t); try discriminate. inversion H. simpl.
         rewrite (IHt _ eq_refl) by exact Hd. rewrite D_pow_pos. reflexivity.
-    - destruct Hd as [Hd Hf]. destruct (tD lg i t) as [da|]; try discriminate.
+    - destruct Hd as (Hd & Hdom & Hf). destruct (tD lg i t) as [da|]; try discriminate.
       specialize (IHt _ eq_refl Hd).
       destruct f; inversion H; simpl; rewrite IHt.
       + now rewrite D_sin.
@@ -387,7 +395,7 @@ Section Sem.
       + now rewrite D_exp.
       + now rewrite D_log.
       + now rewrite D_sqrt.
-    - destruct Hd as (Hb & He & Hn).
+    - destruct Hd as (Hb & He & Hdom & Hn).
       destruct (tD lg i t1), (tD lg i t2); try discriminate. inversion H. simpl.
       rewrite (IHt1 _ eq_refl), (IHt2 _ eq_refl) by auto. now rewrite D_pow.
   Qed.
@@ -424,11 +432,11 @@ Section Sem.
       repeat split; auto. now apply mul_nonzero.
     - destruct n as [|p]; [inversion H; exact I|].
       destruct (tD lg i t); try discriminate. inversion H. simpl. auto.
-    - destruct Hd as [Hd Hf]. destruct (tD lg i t) as [da|]; try discriminate.
+    - destruct Hd as (Hd & Hdom & Hf). destruct (tD lg i t) as [da|]; try discriminate.
       specialize (IHt _ eq_refl Hd).
-      destruct f; inversion H; simpl; repeat split; auto.
-    - destruct Hd as (Hb & He & Hn).
+      destruct f; inversion H; simpl; repeat split; auto; try (now apply Edom_sin_cos).
+    - destruct Hd as (Hb & He & Hdom & Hn).
       destruct (tD lg i t1), (tD lg i t2); try discriminate. inversion H. simpl.
-      repeat split; auto.
+      repeat split; auto. now apply (Pdom_log _ _ Hdom).
   Qed.
 End Sem.
